@@ -251,7 +251,7 @@ func RunCheck(opt *Options) (*CheckReport, error) {
 		if _, ok := ld.byPath[fc.PkgPath]; ok || fc.PkgPath == "" {
 			continue
 		}
-		if p, ok := ld.byName[fc.PkgPath]; ok {
+		if p := ld.resolveShort(fc.PkgPath, fc.FromPkg); p != nil {
 			nk := p.Path() + strings.TrimPrefix(k, fc.PkgPath)
 			delete(cs.Funcs, k)
 			fc.Key, fc.PkgPath = nk, p.Path()
@@ -261,7 +261,7 @@ func RunCheck(opt *Options) (*CheckReport, error) {
 	for _, pi := range cs.PureIfaces {
 		p := ld.byPath[pi.Pkg]
 		if p == nil {
-			p = ld.byName[pi.Pkg]
+			p = ld.resolveShort(pi.Pkg, pi.FromPkg)
 		}
 		if p == nil {
 			continue // package not part of this property's load
